@@ -211,6 +211,10 @@ def gen_plan(rng, index, tier, opts=None):
                     # same-node peaks of different animals far apart
                     if any(np.linalg.norm(pts[j] - o[j]) < peak_sep for o in animals_g for j in range(n_nodes) if not np.isnan(o[j]).any()):
                         continue
+                    # ... and ANY two keypoints of different animals at least a node spacing apart: "well separated" rules out one
+                    # animal's node sitting on another animal's (different) node, which makes a zero-length connection candidate
+                    if any(np.linalg.norm(pts[j] - o[i]) < node_min for o in animals_g for j in range(n_nodes) for i in range(n_nodes) if not np.isnan(o[i]).any()):
+                        continue
                     cand = pts.copy()
                     if n_nodes > 2 and rng.random() < (0.1 if crowded else 0.35):
                         for j in rng.sample(range(n_nodes), rng.randint(1, n_nodes - 2)):
